@@ -326,7 +326,7 @@ def catalog_obligations(rep):
     if sites:
         seen = {}
         for fname, line, text in sites:
-            base = f'C20.catalog.{fname}.{text.split("=")[0].strip()}'
+            base = f'C20.catalog.{text.split("=")[0].strip()}'          # the written slot, not the function it happens to sit in
             seen[base] = seen.get(base, 0) + 1
             rep.failed(base if seen[base] == 1 else f'{base}#{seen[base]}', 'frames', f'{fname} (line {line}) writes into a caller-supplied catalog entry: `{text}`',
                        function=f'{QP}:QueryPlanner.{fname}', clause='planning does not modify the catalog objects it is given', replay=replay_catalog())
